@@ -106,6 +106,36 @@ fn drive_shared(mut it: Iter<'_, Tracked>, sel: &[Obs], script: &[Step]) -> R<()
                 }
             }
             Step::Skip(_) | Step::StepBy(_) => {}
+            Step::RFold => {
+                // internal iteration from the back, two spellings
+                let v: Vec<&Tracked> = it.clone().rfold(Vec::new(), |mut v, t| {
+                    v.push(t);
+                    v
+                });
+                let mut w: Vec<&Tracked> = Vec::new();
+                it.clone().rev().for_each(|t| w.push(t));
+                for (what, v) in [("rfold()", v), ("rev().for_each()", w)] {
+                    if v.len() != hi - lo {
+                        return Err(format!("{what} visits {} elements, expected {}", v.len(), hi - lo));
+                    }
+                    for (k, t) in v.iter().enumerate() {
+                        chk(what, Some(t), Some(&sel[hi - 1 - k]))?;
+                    }
+                }
+            }
+            Step::RevLast => {
+                chk("rev().last()", it.clone().rev().last(), if lo < hi { Some(&sel[lo]) } else { None })?;
+                let v: Vec<&Tracked> = it.clone().fold(Vec::new(), |mut v, t| {
+                    v.push(t);
+                    v
+                });
+                for (k, t) in v.iter().enumerate() {
+                    chk("fold()", Some(t), sel.get(lo + k))?;
+                }
+                if v.len() != hi - lo {
+                    return Err(format!("fold() visits {} elements, expected {}", v.len(), hi - lo));
+                }
+            }
             Step::RevCollect => {
                 let v: Vec<&Tracked> = it.clone().rev().collect();
                 if v.len() != hi - lo {
@@ -217,7 +247,35 @@ fn drive_mut(mut it: IterMut<'_, Tracked>, sel: &[Obs], script: &[Step], mut new
                 }
                 return Ok(writes);
             }
-            Step::Fork | Step::Fold | Step::Skip(_) | Step::StepBy(_) => {}
+            Step::Fold | Step::RFold | Step::RevLast => {
+                // internal iteration (consuming): every visited element is written through
+                let v: Vec<&mut Tracked> = match st {
+                    Step::Fold => it.fold(Vec::new(), |mut v, t| {
+                        v.push(t);
+                        v
+                    }),
+                    Step::RFold => it.rfold(Vec::new(), |mut v, t| {
+                        v.push(t);
+                        v
+                    }),
+                    _ => {
+                        let mut w = Vec::new();
+                        it.rev().for_each(|t| w.push(t));
+                        w
+                    }
+                };
+                if v.len() != hi - lo {
+                    return Err(format!("{st:?} visits {} elements, expected {}", v.len(), hi - lo));
+                }
+                let forward = matches!(st, Step::Fold);
+                for (k, t) in v.into_iter().enumerate() {
+                    let pos = if forward { lo + k } else { hi - 1 - k };
+                    chk("internal iteration", Some(&*t), Some(&sel[pos]))?;
+                    wr(t, pos, &mut writes, &mut seen)?;
+                }
+                return Ok(writes);
+            }
+            Step::Fork | Step::Skip(_) | Step::StepBy(_) => {}
         }
     }
     len_chk("iterator", it.len(), it.size_hint(), hi - lo)?;
@@ -425,11 +483,18 @@ impl St {
                             let rem: Vec<u32> = before[lo..hi].iter().map(|m| m.0).collect();
                             debug_touches_only("the owning iterator", &rem, || it.debug_string())?;
                         }
-                        Step::Count | Step::Fold | Step::Last | Step::RevCollect | Step::Skip(_) | Step::StepBy(_) => {
-                            let v = it.collect_vec();
+                        Step::Count | Step::Fold | Step::Last | Step::RevCollect | Step::Skip(_) | Step::StepBy(_) | Step::RFold | Step::RevLast => {
+                            let (v, rev) = match st {
+                                Step::Fold => (it.fold_collect(), false),
+                                Step::RFold | Step::RevLast => (it.rfold_collect(), true),
+                                _ => (it.collect_vec(), false),
+                            };
                             let ids: Vec<u32> = v.iter().map(|t| t.raw_id()).collect();
                             got.extend(v);
-                            let want: Vec<u32> = before[lo..hi].iter().map(|m| m.0).collect();
+                            let mut want: Vec<u32> = before[lo..hi].iter().map(|m| m.0).collect();
+                            if rev {
+                                want.reverse();
+                            }
                             if ids != want {
                                 return Err(format!("collect() of the rest gave ids {:?}, expected {:?}", ids, want));
                             }
